@@ -179,6 +179,31 @@ Example C09_fixed_witnesses :
   hd (ENote 0) (out (run fixed [] init0 w_rerun)) = EPoll 0 1001002.
 Proof. exact (conj (proj1 timeout_fixed_witness) (conj (proj2 timeout_fixed_witness) rerun_fixed_witness)). Qed.
 
+(* ---------------------------------------------------------------- the queries *)
+(* time-remaining / is-running / expire-time agree, in any state: is_running <> 0 exactly when expire_time_get <> 0;
+   a slot that is not ACTIVE (never used, deleted, expired-and-queued, dispatched) answers 0 to all three; an
+   ACTIVE slot answers its expire_time, "running", and max 0 (expire_time - clock).  Formal reading of "non-zero
+   exactly while pending": between expiry and the loop turn that moves the timer to the job list the time
+   remaining is already 0 while is_running still holds; once queued or dispatched or deleted all are 0. *)
+Theorem C09_queries_agree : forall st h,
+  (is_running st h = 1 <-> expire_time_get st h > 0) /\
+  (is_running st h = 0 <-> expire_time_get st h <= 0) /\
+  (forall i s, timer_from_handle st h = LOk i s -> s_state s <> LT_ENTRY_ACTIVE ->
+     expire_time_get st h = 0 /\ is_running st h = 0 /\ fst (time_remaining st h) = 0) /\
+  (forall i s tm, timer_from_handle st h = LOk i s -> s_state s = LT_ENTRY_ACTIVE -> s_th s = Some tm -> 0 < t_exp tm ->
+     expire_time_get st h = t_exp tm /\ is_running st h = 1 /\
+     fst (time_remaining st h) = Z.max 0 (t_exp tm - clk st)) /\
+  (forall e, timer_from_handle st h = LErr e ->
+     expire_time_get st h = 0 /\ is_running st h = 0 /\ fst (time_remaining st h) = 0).
+Proof. exact queries_agree. Qed.
+Print Assumptions C09_queries_agree.
+
+(* repaired code: every expire_time computed at a positive clock is positive, for every 64-bit duration, so a
+   pending timer is never reported "not running" *)
+Theorem C09_expire_time_positive : forall now d, 0 < now <= LT_UINT64_MAX -> u64 d -> 0 < expire_of fixed now d.
+Proof. exact expire_of_fixed_pos. Qed.
+Print Assumptions C09_expire_time_positive.
+
 (* is_running as found: now + duration = 2^64 gives expire_time 0, reported "not running" while pending *)
 Theorem C09_is_running_refuted :
   let st := run as_found [] init0 [Cb (CAdd 2 (two64 - 1000) 1 7)] in
